@@ -149,6 +149,10 @@ func (p *Parser) parseString(data string) error {
 	if inBackticks {
 		return errors.New("backticks left open")
 	}
+	if strings.TrimSpace(linebuffer.String()) != "" {
+		// the text ends with a continuation backslash: what has been collected is the last directive
+		return p.evaluateLine(linebuffer.String())
+	}
 	return nil
 }
 
